@@ -45,6 +45,16 @@ func expectedOutput(script string) (stdout, stderr []byte, exit int, signalled b
 			if op[0] == 'E' && eOpen {
 				stderr = append(stderr, buf...)
 			}
+		case op[0] == 'U' || op[0] == 'V':
+			n, _ := strconv.Atoi(op[1:])
+			buf := append([]byte{byte('a' + wi%26)}, []byte(strings.Repeat("\u00e9", n*unit/2))...)
+			wi++
+			if op[0] == 'U' && oOpen {
+				stdout = append(stdout, buf...)
+			}
+			if op[0] == 'V' && eOpen {
+				stderr = append(stderr, buf...)
+			}
 		case op[0] == 'B':
 			n, _ := strconv.Atoi(op[1:])
 			bo, be := make([]byte, n*unit), make([]byte, n*unit)
